@@ -17,6 +17,7 @@ CONSTANTS
     UpgraderSem = "drop"
     Reloads = {}
     IOFaults = FALSE
+    CallerWait = "forever"
     UpgradeRecheck = "full"
     MaxCalls = 2
     Kinds = {"auth", "update", "remove", "add", "setadmin", "list"}
